@@ -112,6 +112,40 @@ theorem Desc.child_split {c : Chain} {a x : Nat} (h : Desc c a x) (hne : a ≠ x
     · obtain ⟨ch, m, hm, hmp, hcr, hdd⟩ := ih hp
       exact ⟨ch, m, hm, hmp, hcr, Desc.step hn hx hdd⟩
 
+/-- a node that is in the block store has its data -/
+theorem TreeWF.stored_has_data {U : List Block} {c : Chain} (w : TreeWF U c) {x : Nat} {n : Node} {s : Stored}
+    (hn : getNode c x = some n) (hs : alookup x c.store = some s) : n.txCount ≠ 0 := by
+  intro h0
+  rw [w.hdr x n hn h0] at hs; cases hs
+
+/-- the block of a node with data: in `U`, same parent / bits / transaction count, stored with its transactions -/
+theorem TreeWF.blkData {U : List Block} {c : Chain} (w : TreeWF U c) {x : Nat} {n : Node}
+    (hn : getNode c x = some n) (hx : x ≠ c.root) (hd : n.txCount ≠ 0) :
+    ∃ b ∈ U, b.id = x ∧ b.parent = n.parent ∧ b.bits = n.bits ∧ n.txCount = b.txs.length ∧
+      ∃ s, alookup x c.store = some s ∧ s.txs = b.txs := by
+  obtain ⟨b, hb, h1, h2, h3, h4⟩ := w.blk x n hn hx
+  obtain ⟨h5, s, h6, h7⟩ := h4 hd
+  exact ⟨b, hb, h1, h2, h3, h5, s, h6, h7⟩
+
+/-- the parent of a node with data has its data (or is the root) -/
+theorem TreeWF.parent_has_data {U : List Block} {c : Chain} (w : TreeWF U c) {x : Nat} {n : Node}
+    (hn : getNode c x = some n) (hx : x ≠ c.root) (hd : HasData c x n) :
+    ∃ p, getNode c n.parent = some p ∧ HasData c n.parent p := by
+  rcases hd with h | h
+  · exact absurd h hx
+  · exact w.anc x n hn hx h
+
+/-- every ancestor of a node with data has its data -/
+theorem Desc.has_data {U : List Block} {c : Chain} (w : TreeWF U c) {a x : Nat} (h : Desc c a x) :
+    ∀ nx, getNode c x = some nx → HasData c x nx → ∀ na, getNode c a = some na → HasData c a na := by
+  induction h with
+  | refl => intro nx hx hd na ha; rw [hx] at ha; cases ha; exact hd
+  | @step x n hn hx _ ih =>
+    intro nx hnx hd na ha
+    rw [hn] at hnx; cases hnx
+    obtain ⟨p, hp, hpd⟩ := w.parent_has_data hn hx hd
+    exact ih p hp hpd na ha
+
 theorem Linked_no_root {U : List Block} {c : Chain} (w : TreeWF U c) {p : List PE} (h : Linked c p) :
     ∀ e ∈ p, e.id ≠ c.root := by
   induction p with
@@ -141,26 +175,29 @@ theorem Linked_UChain {U : List Block} {c : Chain} (w : TreeWF U c) {p : List PE
   | nil => trivial
   | cons e rest ih =>
     obtain ⟨⟨n, hn, hnp⟩, ⟨blk, hb, hbt⟩, hl⟩ := h
-    obtain ⟨b, hbU, hid, hpar, _, _, s, hs, hst⟩ := w.blk e.id n hn (w.store _ _ hb).1
+    obtain ⟨b, hbU, hid, hpar, _, _, s, hs, hst⟩ := w.blkData hn (w.store _ _ hb).1 (w.stored_has_data hn hb)
     rw [hb] at hs; cases hs
     exact ⟨⟨b, hbU, hid, by rw [← hst, hbt], by rw [hpar, hnp, headId_eq]⟩, ih hl⟩
 
-/-- every node of the tree is the head of a branch whose length is its height -/
+/-- every node of the tree THAT HAS ITS DATA is the head of a branch (of stored blocks) whose length is its height -/
 theorem branch_exists {U : List Block} {c : Chain} (w : TreeWF U c) :
-    ∀ (h x : Nat) (n : Node), getNode c x = some n → n.height = h →
+    ∀ (h x : Nat) (n : Node), getNode c x = some n → HasData c x n → n.height = h →
       ∃ p, Linked c p ∧ headId c p = x ∧ p.length = h := by
   intro h
   induction h with
-  | zero => intro x n hn h0; exact ⟨[], trivial, (w.root_of_height0 hn h0).symm, rfl⟩
+  | zero => intro x n hn _ h0; exact ⟨[], trivial, (w.root_of_height0 hn h0).symm, rfl⟩
   | succ h ih =>
-    intro x n hn hh
+    intro x n hn hdat hh
     have hx : x ≠ c.root := by
       intro e
       obtain ⟨r, hr, h0, _⟩ := w.root
       rw [e, hr] at hn; cases hn; omega
     obtain ⟨p, hp, hph, _⟩ := w.par x n hn hx
-    obtain ⟨q, hq, hqh, hql⟩ := ih n.parent p hp (by omega)
-    obtain ⟨b, _, _, _, _, _, s, hs, _⟩ := w.blk x n hn hx
+    obtain ⟨p', hp', hpd⟩ := w.parent_has_data hn hx hdat
+    rw [hp] at hp'; cases hp'
+    obtain ⟨q, hq, hqh, hql⟩ := ih n.parent p hp hpd (by omega)
+    have htc : n.txCount ≠ 0 := hdat.resolve_left hx
+    obtain ⟨b, _, _, _, _, _, s, hs, _⟩ := w.blkData hn hx htc
     exact ⟨⟨x, s.txs⟩ :: q, ⟨⟨n, hn, hqh.symm⟩, ⟨s, hs, rfl⟩, hq⟩, rfl, by simp only [List.length_cons, hql]⟩
 
 /-- an ancestor-or-self of the head of a branch splits the branch -/
